@@ -1,2 +1,364 @@
-//! Harnesses for property C41 (see /verif/properties.jsonl).
-use crate::stubs;
+//! C41 PTP messages survive a serialise/parse round trip.
+//!
+//! Oracles are written on raw bytes from the IEEE 1588-2019 layout (clause 13.3 header, 13.5 ff.
+//! bodies, 14.1 TLVs), not by calling the codec twice:
+//!  * parse direction: `Ok(m)` => `m.serialize` writes exactly `messageLength` bytes that agree with
+//!    the input on every non-reserved bit, writes 0 on reserved bits, re-parses to an equal message,
+//!    and the TLV iterator walks exactly the TLVs found in the raw suffix;
+//!  * build direction: every message expressible through the public constructors serialises and
+//!    parses back equal.
+use crate::common::*;
+use statime_wire::verif::common::tlv as th;
+use statime_wire::*;
+use std::borrow::Cow;
+
+/// Bits of absolute message byte `i` that carry information (1) vs reserved/ignored on receipt (0).
+fn info_mask(i: usize, message_type: u8) -> u8 {
+    if i < 34 {
+        return match i {
+            6 => 0x67,           // flagField octet 0: alternateMaster, twoStep, unicast, profileSpecific1/2
+            7 => 0x7f,           // flagField octet 1: leap61, leap59, utcOffsetValid, ptpTimescale, time/freq traceable, syncUncertain
+            16 | 17 | 18 | 19 => 0, // messageTypeSpecific
+            32 => 0,             // controlField (obsolete, ignored on receipt)
+            _ => 0xff,
+        };
+    }
+    let j = i - 34;
+    match message_type {
+        0x2 if (10..20).contains(&j) => 0, // Pdelay_Req reserved tail
+        0xb if j == 12 => 0,               // Announce reserved octet
+        0xd if j == 10 => 0,               // Management: octet not interpreted by this implementation
+        _ => 0xff,
+    }
+}
+
+fn accuracy_reserved(a: u8) -> bool {
+    a <= 0x16 || (0x32..=0x7f).contains(&a) || a == 0xff
+}
+
+fn parse_roundtrip<const N: usize>() {
+    let bytes: [u8; N] = kani::any();
+    let n: usize = kani::any();
+    kani::assume(n <= N);
+    let parsed = Message::deserialize(&bytes[..n]);
+    let Ok(m) = parsed else {
+        return;
+    };
+    let mt = bytes[0] & 0x0f;
+    let ml = be16(&bytes, 2) as usize;
+    let Some(bl) = body_len(mt) else {
+        assert!(false, "accepted a message type that PTPv2 does not define");
+        return;
+    };
+    assert!(ml >= 34 + bl && ml <= n, "accepted message: messageLength covers header+body and lies inside the datagram");
+    assert!(m.wire_size() == ml, "wire_size equals the parsed messageLength");
+
+    // re-serialise
+    let mut out = [0u8; N];
+    let w = m.serialize(&mut out);
+    assert!(matches!(w, Ok(x) if x == ml), "serialize succeeds and writes messageLength bytes");
+    assert!(N <= 64, "unroll64 covers the buffer");
+    crate::unroll64!(i, {
+        if i < N {
+            if i < ml {
+                let mask = info_mask(i, mt);
+                let a = bytes[i];
+                let o = out[i];
+                if mt == 0xb && i == 34 + 15 {
+                    assert!(o == a || (accuracy_reserved(a) && o == 0), "clockAccuracy octet round-trips (reserved codes collapse to 0)");
+                } else if mt == 0xd && i == 34 + 13 {
+                    assert!(o == a || (a >= 5 && o == 5), "management action octet round-trips (reserved codes collapse to 5)");
+                } else {
+                    assert!((a ^ o) & mask == 0, "re-serialised byte equals the input on all non-reserved bits");
+                    assert!(o & !mask == 0, "reserved bits are written as zero");
+                }
+            } else {
+                assert!(out[i] == 0, "nothing written beyond messageLength");
+            }
+        }
+    });
+
+    // header fields against the raw layout
+    assert!(m.header.domain_number == bytes[4], "domainNumber");
+    assert!(m.header.sequence_id == be16(&bytes, 30), "sequenceId");
+    assert!(m.header.two_step_flag == (bytes[6] & 2 != 0), "twoStepFlag");
+    assert!(u16::from(m.header.sdo_id) == (((bytes[0] >> 4) as u16) << 8 | bytes[5] as u16), "sdoId");
+    assert!(m.header.correction_field.0 == be64(&bytes, 8) as i64, "correctionField");
+
+    // TLV iterator walks exactly the raw suffix
+    let mut off = 34 + bl;
+    let mut count = 0usize;
+    for tlv in m.suffix.tlvs() {
+        assert!(off + 4 <= ml, "iterator yields a TLV only where a TLV header fits");
+        let len = be16(&bytes, off + 2) as usize;
+        assert!(len % 2 == 0 && off + 4 + len <= ml, "TLV length even and inside the message");
+        assert!(th::tlv_type_to_primitive(tlv.tlv_type) == be16(&bytes, off), "TLV type code");
+        assert!(tlv.value.len() == len, "TLV value length equals lengthField");
+        assert!(tlv.value[..] == bytes[off + 4..off + 4 + len], "TLV value bytes");
+        off += 4 + len;
+        count += 1;
+    }
+    assert!(off == ml, "TLVs yielded by the iterator cover the suffix exactly");
+
+    kani::cover!(count >= 1 && ml < n && bytes[6] & 0x98 != 0, "accepted: TLV present, trailing padding, reserved flag bits set");
+    kani::cover!(count >= 2 || N < 56, "accepted message with two TLVs");
+}
+
+#[kani::proof]
+#[kani::unwind(10)]
+fn c41_parse() {
+    parse_roundtrip::<52>();
+}
+
+#[kani::proof]
+#[kani::unwind(22)]
+fn c41_parse_64() {
+    parse_roundtrip::<64>();
+}
+
+// ------------------------------------------------------------------ build direction
+fn any_tlv_type() -> TlvType {
+    let k: u8 = kani::any();
+    let v: u16 = kani::any();
+    match k {
+        0 => TlvType::Management,
+        1 => TlvType::PathTrace,
+        2 => TlvType::OrganizationExtensionPropagate,
+        3 => TlvType::Pad,
+        4 => TlvType::CsptpRequest,
+        5 => TlvType::CsptpResponse,
+        6 => TlvType::Authentication,
+        7 => {
+            // canonical payloads only: Reserved(v) with v in a reserved block
+            kani::assume((0x000a..=0x1fff).contains(&v) || v == 0 || (0xff02..=0xffff).contains(&v));
+            TlvType::Reserved(v)
+        }
+        8 => {
+            kani::assume((0x2004..=0x202f).contains(&v) || (0x7f00..=0x7fff).contains(&v));
+            TlvType::Experimental(v)
+        }
+        _ => {
+            kani::assume((0x2000..=0x2003).contains(&v));
+            TlvType::Legacy(v)
+        }
+    }
+}
+
+fn any_body(kind: u8) -> MessageBody {
+    let ts = any_timestamp();
+    let pid = any_port_identity();
+    match kind {
+        0 => MessageBody::Sync(SyncMessage { origin_timestamp: ts }),
+        1 => MessageBody::DelayReq(DelayReqMessage { origin_timestamp: ts }),
+        2 => MessageBody::PDelayReq(PDelayReqMessage { origin_timestamp: ts }),
+        3 => MessageBody::PDelayResp(PDelayRespMessage { request_receive_timestamp: ts, requesting_port_identity: pid }),
+        4 => MessageBody::FollowUp(FollowUpMessage { precise_origin_timestamp: ts }),
+        5 => MessageBody::DelayResp(DelayRespMessage { receive_timestamp: ts, requesting_port_identity: pid }),
+        6 => MessageBody::PDelayRespFollowUp(PDelayRespFollowUpMessage { response_origin_timestamp: ts, requesting_port_identity: pid }),
+        7 => MessageBody::Announce(AnnounceMessage {
+            origin_timestamp: ts,
+            current_utc_offset: kani::any(),
+            grandmaster_priority_1: kani::any(),
+            grandmaster_clock_quality: ClockQuality {
+                clock_class: kani::any(),
+                // canonical enum payloads: the image of the public from_primitive
+                clock_accuracy: ClockAccuracy::from_primitive(kani::any()),
+                offset_scaled_log_variance: kani::any(),
+            },
+            grandmaster_priority_2: kani::any(),
+            grandmaster_identity: ClockIdentity(kani::any()),
+            steps_removed: kani::any(),
+            time_source: TimeSource::from_primitive(kani::any()),
+        }),
+        8 => MessageBody::Signaling(SignalingMessage { target_port_identity: pid }),
+        _ => {
+            let a: u8 = kani::any();
+            MessageBody::Management(ManagementMessage {
+                target_port_identity: pid,
+                starting_boundary_hops: kani::any(),
+                boundary_hops: kani::any(),
+                action: match a {
+                    0 => ManagementAction::GET,
+                    1 => ManagementAction::SET,
+                    2 => ManagementAction::RESPONSE,
+                    3 => ManagementAction::COMMAND,
+                    4 => ManagementAction::ACKNOWLEDGE,
+                    _ => ManagementAction::Reserved,
+                },
+            })
+        }
+    }
+}
+
+/// messageType nibble the standard assigns to each body kind used by `any_body`.
+fn kind_type(kind: u8) -> u8 {
+    [0x0, 0x1, 0x2, 0x3, 0x8, 0x9, 0xa, 0xb, 0xc, 0xd][kind as usize]
+}
+
+/// One message of a concrete shape (body kind, number of TLVs, value lengths) with symbolic
+/// contents: header fields, body fields, TLV types and TLV values.
+fn build_case<const W: usize>(kind: u8, ntlv: usize, l0: usize, l1: usize) {
+    let header = any_header();
+    let body = any_body(kind);
+    let t0 = any_tlv_type();
+    let t1 = any_tlv_type();
+    let v0: [u8; 4] = kani::any();
+    let v1: [u8; 4] = kani::any();
+
+    let mut tlvbuf = [0u8; 16];
+    let mut builder = TlvSetBuilder::new(&mut tlvbuf);
+    if ntlv >= 1 {
+        let r = builder.add(&Tlv { tlv_type: t0, value: Cow::Borrowed(&v0[..l0]) });
+        assert!(r.is_ok(), "TLV fits the builder buffer");
+    }
+    if ntlv >= 2 {
+        let r = builder.add(&Tlv { tlv_type: t1, value: Cow::Borrowed(&v1[..l1]) });
+        assert!(r.is_ok(), "TLV fits the builder buffer");
+    }
+    let suffix = builder.build();
+    let m = Message { header, body, suffix };
+
+    let mut wire = [0u8; W];
+    let w = m.serialize(&mut wire);
+    let Ok(w) = w else {
+        assert!(false, "a message built through the public API serialises into a sufficiently large buffer");
+        return;
+    };
+    let bl = body_len(kind_type(kind)).unwrap();
+    let expect_len = 34 + bl + if ntlv >= 1 { 4 + l0 } else { 0 } + if ntlv >= 2 { 4 + l1 } else { 0 };
+    assert!(w == expect_len, "written length = header + body + TLVs");
+    assert!(wire[0] & 0x0f == kind_type(kind), "messageType nibble");
+    assert!(be16(&wire, 2) as usize == w, "messageLength field equals the number of bytes written");
+    assert!(wire[4] == header.domain_number && be16(&wire, 30) == header.sequence_id, "domain and sequence id at their wire offsets");
+    if ntlv >= 1 {
+        let o = 34 + bl;
+        assert!(be16(&wire, o) == th::tlv_type_to_primitive(t0), "first TLV type code");
+        assert!(be16(&wire, o + 2) as usize == l0, "first TLV lengthField equals its value length");
+        let mut k = 0;
+        while k < 4 {
+            assert!(k >= l0 || wire[o + 4 + k] == v0[k], "first TLV value bytes");
+            k += 1;
+        }
+    }
+    if ntlv >= 2 {
+        let o = 34 + bl + 4 + l0;
+        assert!(be16(&wire, o) == th::tlv_type_to_primitive(t1), "second TLV type code");
+        assert!(be16(&wire, o + 2) as usize == l1, "second TLV lengthField equals its value length");
+    }
+
+    let back = Message::deserialize(&wire[..w]);
+    assert!(matches!(&back, Ok(m2) if *m2 == m), "serialised message parses back to an equal message");
+    if let Ok(m2) = &back {
+        // the TLVs come back, in order, through the iterator
+        let mut it = m2.suffix.tlvs();
+        if ntlv >= 1 {
+            let a = it.next();
+            assert!(matches!(&a, Some(t) if t.tlv_type == t0 && t.value.len() == l0), "first TLV is iterated");
+        }
+        if ntlv >= 2 {
+            let b = it.next();
+            assert!(matches!(&b, Some(t) if t.tlv_type == t1 && t.value.len() == l1), "second TLV is iterated");
+        }
+        assert!(it.next().is_none(), "no further TLVs");
+    }
+    kani::cover!(true, "case reached the end");
+}
+
+/// All shapes of one body kind in the given region.
+fn build_kind(kind: u8, region: Region) {
+    const LENS: [usize; 5] = [0, 2, 4, 1, 3];
+    let mut ntlv = 0;
+    while ntlv <= 2 {
+        let mut a = 0;
+        while a < 5 {
+            let mut b = 0;
+            while b < 5 {
+                let (l0, l1) = (LENS[a], LENS[b]);
+                // shapes with fewer TLVs ignore the unused lengths: visit them once
+                let dup = (ntlv == 0 && (a > 0 || b > 0)) || (ntlv == 1 && b > 0);
+                let odd = (ntlv >= 1 && l0 % 2 == 1) || (ntlv >= 2 && l1 % 2 == 1);
+                let trailing_empty = (ntlv == 1 && l0 == 0) || (ntlv == 2 && l1 == 0);
+                let wanted = match region {
+                    Region::Main => !odd && !trailing_empty,
+                    Region::TrailingEmpty => !odd && trailing_empty,
+                    Region::OddLength => odd,
+                };
+                if !dup && wanted {
+                    build_case::<80>(kind, ntlv, l0, l1);
+                }
+                b += 1;
+            }
+            a += 1;
+        }
+        ntlv += 1;
+    }
+}
+
+#[derive(Clone, Copy, PartialEq)]
+enum Region {
+    /// no trailing empty-valued TLV, all value lengths even (what 1588 allows minus the defect)
+    Main,
+    /// last TLV has an empty value (lengthField 0), lengths even
+    TrailingEmpty,
+    /// some value length odd (1588 requires even lengthField; the builder does not refuse it)
+    OddLength,
+}
+
+macro_rules! build_harness {
+    ($name:ident, $kind:expr, $region:expr) => {
+        #[kani::proof]
+        #[kani::unwind(18)]
+        fn $name() {
+            build_kind($kind, $region);
+        }
+    };
+}
+build_harness!(c41_build_sync, 0, Region::Main);
+build_harness!(c41_build_delay_req, 1, Region::Main);
+build_harness!(c41_build_pdelay_req, 2, Region::Main);
+build_harness!(c41_build_pdelay_resp, 3, Region::Main);
+build_harness!(c41_build_follow_up, 4, Region::Main);
+build_harness!(c41_build_delay_resp, 5, Region::Main);
+build_harness!(c41_build_pdelay_resp_fu, 6, Region::Main);
+build_harness!(c41_build_announce, 7, Region::Main);
+build_harness!(c41_build_signaling, 8, Region::Main);
+build_harness!(c41_build_management, 9, Region::Main);
+// Expected to FAIL (known-finding candidates), Sync body:
+// a trailing TLV with an empty value is not parsed back;
+build_harness!(c41_build_kf_trailing_empty_tlv, 0, Region::TrailingEmpty);
+// odd-length TLV values are accepted by the builder but rejected by the parser (and trip a debug
+// assertion in `wire_size`).
+build_harness!(c41_build_kf_odd_tlv_length, 0, Region::OddLength);
+
+/// One body kind, symbolic TLV shape inside `region`.
+fn build_sym<const W: usize>(kind: u8, region: Region) {
+    let ntlv: usize = kani::any();
+    let l0: usize = kani::any();
+    let l1: usize = kani::any();
+    kani::assume(ntlv <= 2 && l0 <= 4 && l1 <= 4);
+    let odd = (ntlv >= 1 && l0 % 2 == 1) || (ntlv >= 2 && l1 % 2 == 1);
+    let trailing_empty = (ntlv == 1 && l0 == 0) || (ntlv == 2 && l1 == 0);
+    match region {
+        Region::Main => kani::assume(!odd && !trailing_empty),
+        Region::TrailingEmpty => kani::assume(!odd && trailing_empty),
+        Region::OddLength => kani::assume(odd),
+    }
+    build_case::<W>(kind, ntlv, l0, l1);
+}
+
+#[kani::proof]
+#[kani::unwind(18)]
+fn probe_build_sym() {
+    build_sym::<80>(0, Region::Main);
+}
+
+#[kani::proof]
+#[kani::unwind(18)]
+fn probe_build_one() {
+    build_case::<64>(0, 1, 2, 0);
+}
+#[kani::proof]
+#[kani::unwind(18)]
+fn probe_build_zero() {
+    build_case::<64>(0, 0, 0, 0);
+}
